@@ -138,6 +138,52 @@ def _reaches(node, fn, sinks, flow=None):
     return False
 
 
+def _alternatives(e, fn, depth=4):
+    """[(value expression, facts)]: the values expression `e` (a node of `fn`) can take, each with the atomic conditions
+    (shape.facts_at format) known to hold when it is taken.  Sees through conditional expressions, through local names
+    with a dominating definition, and through a local name assigned in every branch of the closest preceding `if`
+    statement - so `k = a if c else b`, `if c: k = a / else: k = b` and the expression written in place are alike."""
+    here = shape.facts_at(e, fn)
+    if isinstance(e, ast.IfExp):
+        return _alternatives(e.body, fn, depth) + _alternatives(e.orelse, fn, depth)
+    if isinstance(e, ast.Name) and isinstance(e.ctx, ast.Load) and depth > 0:
+        v = shape.dominating_def(e, fn)
+        if v is not None:
+            return [(x, f + here) for x, f in _alternatives(v, fn, depth - 1)]
+        cur = e
+        while True:
+            loc = shape._block_and_index(cur)
+            if loc is None:
+                break
+            par, lst, idx = loc
+            binder = next((st for st in reversed(lst[:idx]) if any(isinstance(x, ast.Name) and x.id == e.id and isinstance(x.ctx, ast.Store) for x in ast.walk(st))), None)
+            if binder is not None:
+                assigns = [a for a in ast.walk(binder) if isinstance(a, ast.Assign) and len(a.targets) == 1 and isinstance(a.targets[0], ast.Name) and a.targets[0].id == e.id]
+                stores = [x for x in ast.walk(binder) if isinstance(x, ast.Name) and x.id == e.id and isinstance(x.ctx, ast.Store)]
+                covers = lambda stmts: any(isinstance(st, ast.Assign) and any(a is st for a in assigns) for st in stmts) or any(isinstance(st, ast.If) and covers(st.body) and covers(st.orelse) for st in stmts)
+                if isinstance(binder, ast.If) and len(assigns) == len(stores) and covers(binder.body) and covers(binder.orelse):
+                    return [(x, f + here) for a in assigns for x, f in _alternatives(a.value, fn, depth - 1)]
+                break
+            if par is fn or isinstance(par, (ast.FunctionDef, ast.AsyncFunctionDef, ast.Lambda, ast.For, ast.While, ast.AsyncFor)):
+                break
+            cur = par
+    return [(e, here)]
+
+
+def _selected_by(alts, cond, when_true, when_false):
+    """The alternatives are exactly: a value satisfying `when_true` where an atom satisfying `cond` holds, and a value
+    satisfying `when_false` where it is known not to hold (both present)."""
+    kinds = set()
+    for x, facts in alts:
+        if when_true(x) and any(t and cond(a) for a, t in facts):
+            kinds.add(True)
+        elif when_false(x) and any((not t) and cond(a) for a, t in facts):
+            kinds.add(False)
+        else:
+            return False
+    return kinds == {True, False}
+
+
 def _own_function(n):
     while n is not None and not isinstance(n, (ast.FunctionDef, ast.AsyncFunctionDef, ast.Lambda)):
         n = getattr(n, "_parent", None)
@@ -169,7 +215,8 @@ def _dispatch_depth(node, loop):
 
 
 def tokenizer_helpers(ix):
-    """The nested helpers of uncertainty_tokenizer, found by what they do (their names are local names):
+    """The helpers of uncertainty_tokenizer (nested in it, or private module-level functions it calls), found by what they
+    do (their names are local names):
       'lookahead' (_get_possible_e)    looks ahead in the token stream it is given (`<param>.lookahead(...)`) without
                                        consuming from it, and is called from the body of the tokenizer;
       'consumer'  (_finalize_e)        consumes tokens from the stream it is given (`next(<param>)`);
@@ -177,7 +224,17 @@ def tokenizer_helpers(ix):
     Returns {role: FuncInfo}; a role that cannot be found is an analysis error (exit 2), never a silent pass."""
     pe = ix.module(PE)
     tok = ix.func(PE, "uncertainty_tokenizer")
+    # candidates: the functions nested in the tokenizer, and the private module-level functions it calls (directly or
+    # through another candidate) - a nested helper may be moved to module level, its closure variables becoming arguments
+    private = {g.name: g for g in pe.all_functions if g.parent is None and g.cls is None and isinstance(g.node, ast.FunctionDef) and g.name.startswith("_") and g is not tok}
     nested = [g for g in pe.all_functions if g.parent is tok and isinstance(g.node, ast.FunctionDef)]
+    todo = [tok] + list(nested)
+    while todo:
+        g = todo.pop()
+        for c in ast.walk(g.node):
+            if isinstance(c, ast.Call) and isinstance(c.func, ast.Name) and c.func.id in private and private[c.func.id] not in nested:
+                nested.append(private[c.func.id])
+                todo.append(private[c.func.id])
     params = lambda g: [a.arg for a in g.node.args.args]
     calls = lambda node: [c for c in walk_local(node) if isinstance(c, ast.Call)]
     consumes = lambda g: any(isinstance(c.func, ast.Name) and c.func.id == "next" and c.args and isinstance(c.args[0], ast.Name) and c.args[0].id in params(g) for c in calls(g.node))
@@ -285,26 +342,52 @@ def lookahead_offsets_rule(ck, ix):
     tok = ix.func(PE, "uncertainty_tokenizer")
     fn = tok.node
 
-    def offset(e):
-        """(has_shift, constant) of an offset expression, or None"""
-        if isinstance(e, ast.Constant) and isinstance(e.value, int):
-            return (False, e.value)
-        if isinstance(e, ast.Name):
-            return (True, 0)
-        if isinstance(e, ast.BinOp) and isinstance(e.op, ast.Add):
-            a, b = offset(e.left), offset(e.right)
-            if a and b:
-                return (a[0] or b[0], a[1] + b[1])
+    def comp_range(name_node):
+        """The integers a comprehension variable ranges over when it counts the elements of a literal sequence
+        (`for i, x in enumerate(<literal>[, start])`, `for i in range(a[, b])`); None if it is not such a variable."""
+        for p in _ancestors(name_node):
+            for g in getattr(p, "generators", []) or []:
+                bound = [x.id for x in ast.walk(g.target) if isinstance(x, ast.Name)]
+                if name_node.id not in bound:
+                    continue
+                it = g.iter
+                if isinstance(it, ast.Call) and isinstance(it.func, ast.Name) and it.func.id == "enumerate" and it.args and isinstance(g.target, ast.Tuple) \
+                        and isinstance(g.target.elts[0], ast.Name) and g.target.elts[0].id == name_node.id:
+                    seq = it.args[0]
+                    size = len(seq.value) if isinstance(seq, ast.Constant) and isinstance(seq.value, str) else (len(seq.elts) if isinstance(seq, (ast.Tuple, ast.List)) else None)
+                    first = it.args[1] if len(it.args) > 1 else next((k.value for k in it.keywords if k.arg == "start"), None)
+                    lo = 0 if first is None else (first.value if isinstance(first, ast.Constant) and isinstance(first.value, int) else None)
+                    return list(range(lo, lo + size)) if size is not None and lo is not None else []
+                if isinstance(it, ast.Call) and isinstance(it.func, ast.Name) and it.func.id == "range" and isinstance(g.target, ast.Name) and all(isinstance(a, ast.Constant) and isinstance(a.value, int) for a in it.args) and 1 <= len(it.args) <= 2:
+                    return list(range(*[a.value for a in it.args]))
+                return []
         return None
+
+    def offsets(e):
+        """[(has_shift, constant), ...]: the values of an offset expression; a plain local name is the optional-token
+        shift, a comprehension variable counting a literal sequence ranges over constants.  [] if not understood."""
+        if isinstance(e, ast.Constant) and isinstance(e.value, int):
+            return [(False, e.value)]
+        if isinstance(e, ast.Name):
+            r = comp_range(e)
+            return [(True, 0)] if r is None else [(False, k) for k in r]
+        if isinstance(e, ast.BinOp) and isinstance(e.op, ast.Add):
+            return [(a[0] or b[0], a[1] + b[1]) for a in offsets(e.left) for b in offsets(e.right)]
+        return []
+
+    def offset(e):
+        """(has_shift, constant) of an offset expression with a single value, or None"""
+        o = offsets(e)
+        return o[0] if len(o) == 1 else None
 
     is_la = lambda c: isinstance(c, ast.Call) and isinstance(c.func, ast.Attribute) and c.func.attr == "lookahead" and c.args
     exp_search = tokenizer_helpers(ix)["lookahead"].name      # the nested helper that searches the exponent, found by role
 
     def guard_of(node):
         """(offsets inspected by the conditions that hold at `node`, line of the innermost branch whose test inspects)"""
-        la = [offset(c.args[0]) for a, truth in shape.facts_at(node, fn) if truth for c in ast.walk(a) if is_la(c)]
+        la = [o for a, truth in shape.facts_at(node, fn) if truth for c in ast.walk(a) if is_la(c) for o in offsets(c.args[0])]
         line = next((p.lineno for p in _ancestors(node) if isinstance(p, ast.If) and any(is_la(c) for c in ast.walk(p.test))), fn.lineno)
-        return [o for o in la if o is not None], line
+        return la, line
 
     def in_test(node):
         prev = node
@@ -432,13 +515,20 @@ def run(ck, ix, tier):
                 ra.append((t, vals))
     ok = len(ra) == 1 and ra[0][1] == ["**", "^"]
     ck.check(ok, "G-TABLE", "_build_eval_tree|right-associative-only-power", fb.loc(ra[0][0]) if ra else fb.loc(), "only ** and ^ group right-to-left", f"the set of right-associative operators is {[r[1] for r in ra]}, not exactly {{**, ^}}")
-    # priority comparisons `op_priority[<operator>] <= op_priority.get(prev_op, -1)`, in either operand order
+    # priority comparisons `op_priority[<operator>] <= <priority of the enclosing operator>`, in either operand order; the
+    # priority of the enclosing operator is op_priority.get(prev_op, -1), or op_priority[prev_op] where prev_op is known to
+    # be in the table and -1 where it is not (conditional expression, if statement, hoisted into a local - all alike)
+    minus_one = lambda x: _m(x, "-1") is not None
+    known_op = lambda a: _m(a, "prev_op in op_priority") is not None
+    def enclosing_priority(e):
+        alts = _alternatives(e, fn)
+        return all(_m(x, "op_priority.get(prev_op, -1)") is not None for x, _f in alts) or _selected_by(alts, known_op, lambda x: _m(x, "op_priority[prev_op]") is not None, minus_one)
     cmps = []
     for c in walk_local(fn):
         if isinstance(c, ast.Compare) and len(c.ops) == 1 and type(c.ops[0]) in _MIRROR:
             for l, r, op in ((c.left, c.comparators[0], type(c.ops[0])), (c.comparators[0], c.left, _MIRROR[type(c.ops[0])])):
                 lr, rr = shape.resolve(l, fn), shape.resolve(r, fn)
-                if _m(rr, "op_priority.get(prev_op, -1)") is not None and isinstance(lr, ast.Subscript) and norm(lr.value) == "op_priority":
+                if enclosing_priority(r) and isinstance(lr, ast.Subscript) and norm(lr.value) == "op_priority":
                     label = "op_priority[token_text]" if norm(lr.slice) in opt else norm(lr)
                     cmps.append((c, op, label))
     ck.check(len(cmps) == 2, "G-TABLE", "_build_eval_tree|two-priority-comparisons", fb.loc(), "explicit and implicit operators compare their priority with the enclosing operator", f"{len(cmps)} priority comparisons found (expected 2)")
@@ -521,7 +611,11 @@ def run(ck, ix, tier):
     for c, m, r in bins:
         ck.check(m is not None, "G-PROV", "evaluate|left-then-right", fe.loc(c), "binary node = op(left, right)", f"`{norm(r)[:160]}`: a binary node must be evaluated as op(left.evaluate(...), right.evaluate(...)) with the same operator tables passed down")
         if m is not None:
-            ck.check(m["_K"].replace('"', "'") == "self.operator.string if self.operator else ''", "G-PROV", "evaluate|implicit-operator-is-empty-string", fe.loc(c), "a node without operator token is juxtaposition ('')",
+            fnode = c.func if isinstance(c.func, ast.Subscript) else shape.unalias(c.func, fe.node)
+            alts = _alternatives(fnode.slice, fe.node) if isinstance(fnode, ast.Subscript) else []
+            has_op = lambda a: _m(a, "self.operator", "self.operator is not None") is not None
+            okk = bool(alts) and _selected_by(alts, has_op, lambda x: _m(x, "self.operator.string") is not None, lambda x: isinstance(x, ast.Constant) and x.value == "")
+            ck.check(okk, "G-PROV", "evaluate|implicit-operator-is-empty-string", fe.loc(c), "a node without operator token is juxtaposition ('')",
                      f"the binary operator is looked up as `{m['_K']}`: a node without operator token must be looked up as '' (implicit multiplication)")
 
     # sign sets of the exponent look-ahead (writer) and its consumer (reader)
